@@ -95,6 +95,9 @@ func judgeInsn(rs []*core.Result, mode int, w x86ref.Want, extra func(out []byte
 	v := core.Verdict{}
 	if core.ReportsError(r, base) {
 		v.Outcome = "diagnosed"
+		if len(r.Out) > len(base.Out) {
+			v.Outcome = "diagnosed_but_emitted"
+		}
 		return v
 	}
 	out := r.Out
